@@ -23,8 +23,9 @@ pub(crate) fn group_intersections_per_edge<T: CoordsFloat>(
     let mut edge_intersec: HashMap<EdgeIdType, Vec<(usize, T, DartIdType)>> = HashMap::new();
     intersection_metadata
         .into_iter()
-        .filter(|(_, t)| !t.is_nan())
+        // IDs are positions in the metadata vector, they must be assigned before dropping unused slots
         .enumerate()
+        .filter(|(_, (_, t))| !t.is_nan())
         .for_each(|(idx, (dart_id, mut t))| {
             // classify intersections per edge_id & adjust t if  needed
             let edge_id = cmap.edge_id(dart_id);
